@@ -12,10 +12,19 @@ NOTE_PARTIAL = ("the theorems in coq/fs/%s.v are about named mechanisms of the l
                 "statement of DESIGN.md is not yet proved end to end, so this evidence is reported at level 'other': "
                 "proved lemmas + trace-exact correspondence + spec oracle on the implementation")
 
+PROOF_LEVEL = {
+    "C06": "C06_iterate / C06_find / C06_find_listed / C06_open_dir are complete theorems about the layer-B model: for every directory contents, every chain (FAT16 root, FAT16/FAT32 chains) and every state with a working device and a coherent cache, the listing is exactly the valid slots before the end marker in on-disk order, lookup is the first match, open_dir succeeds exactly for listed directory entries and designates the entry's cluster (0 -> root, \".\" -> the same directory)",
+    "C07": "the decision tables of open_file_in_dir (six modes x missing/file/read-only/directory/already-open/dot names), delete_file_in_dir, make_dir_in_dir, open_dir and write on a read-only handle are theorems about the layer-B model for every state in which the handles resolve; every refusal leaves the state of the lookup (reads only)",
+    "C08": "handle freshness inside the 2^32 window (with its refutation beyond, known finding), stale-handle rejection without effect for every call (open_root_dir refuted: known finding), limits as an invariant of every op with the matching errors, volume rules, closing frees exactly one slot, truthful open-handle query, LockError without any effect for every result-returning op while the lock is held - all theorems about the layer-B model for all states and ops",
+}
+
 def finish(run, env, pid, rule, extra=None, known_filter=None):
     env.fill_coverage(rule, extra)
-    run.coverage["explanation"] = NOTE_PARTIAL % pid
     run.assumptions += ["block writes are atomic and ordered (device model)", "the tie between coq/fs/Fs*.v and the crate is differential testing (counts in coverage)"]
+    if pid in PROOF_LEVEL and run.coverage.get("obligations") == run.coverage.get("discharged"):
+        run.coverage["explanation"] = PROOF_LEVEL[pid]
+        return "proof"
+    run.coverage["explanation"] = NOTE_PARTIAL % pid
     return "other"
 
 def do_replay(run, env, replay):
@@ -221,7 +230,10 @@ def c02_oracle(sc):
                 out.append("%s: medium holds %d bytes, flushed contents have %d bytes%s" % (path, e.size, len(want), "" if e.size != len(want) else " (contents differ)"))
         for path in sp.dirs:
             if path and (path not in flat or not flat[path].is_dir):
-                out.append("%s: directory missing from the medium" % path)
+                if path.rsplit("/", 1)[-1][:1] == "\xe5" or any(seg[:1] == "\xe5" for seg in path.split("/")):
+                    out.append("KNOWN-e5 %s stored with first byte 0xE5 is invisible to a FAT reader" % path)
+                else:
+                    out.append("%s: directory missing from the medium" % path)
         # untouched files and directories: entry bytes and data byte-for-byte unchanged; ctime never changes
         for path, e0 in flat0.items():
             e1 = flat.get(path)
